@@ -30,6 +30,8 @@ SYMBOL_POOLS = [
     ["x[3]", "x[12]", "theta", "beta"],
     ["x", "x[3]"],          # plain + indexed symbol with the same base name
     ["lambda_", "N", "O", "zeta"],
+    ["j", "nan", "inf", "theta"],           # identifiers that numeric-literal parsers also accept
+    ["J", "infinity", "NaN", "oo", "zoo"],
 ]
 POW_EXPONENTS = (2, 3, -1, 0, 1, -2, 0.5, -1.5, 2.0)
 ALL_VIAS = ["str", "bytes", "pathlike", "handle"]
@@ -290,7 +292,7 @@ class World:
     PROBES_EXPECTED = [
         "overwrite", "overwrite-shorter", "overwrite-other-kind", "torn-file-load", "semantic-compared", "dict-roundtrip",
         "set-roundtrip", "custom-gate", "wrapper-depth>=3", "indexed-symbol", "sympy-named-symbol", "empty-circuit",
-        "idle-qubits", "custom-gate-alt-definition", "via-handle", "via-bytes", "via-pathlike", "float-param", "exp-wrapper", "pow-wrapper",
+        "idle-qubits", "custom-gate-alt-definition", "numeric-literal-named-symbol", "via-handle", "via-bytes", "via-pathlike", "float-param", "exp-wrapper", "pow-wrapper",
     ]
 
     # ------------------------------------------------------------ generation
@@ -472,8 +474,10 @@ class World:
                         names = _names(p.get("sym") or p.get("e"))
                         if any("[" in n for n in names):
                             ctx.probe("indexed-symbol")
-                        if any(n in ("beta", "gamma", "S", "I", "E", "Q", "pi", "N", "O", "zeta") for n in names):
+                        if any(n in ("beta", "gamma", "S", "I", "E", "Q", "pi", "N", "O", "zeta", "oo", "zoo") for n in names):
                             ctx.probe("sympy-named-symbol")
+                        if any(n.lower() in ("j", "nan", "inf", "infinity") for n in names):
+                            ctx.probe("numeric-literal-named-symbol")
 
     def step(self, ctx, st, step):
         a = step["args"]
